@@ -387,6 +387,18 @@ _MORE5 = {
     "C11": "Behaviours include a nil cleanup registered between two real ones.",
     "C14": "Family late-first-context: goroutines whose first Context() call comes as the case ends (by return or SkipNow); overlapping workers may keep calling Errorf while the property returns (verdict and races judged, not 'flaky').",
 }
+_MORE6 = {
+    "C01": "A quarter of the programs return at once if t.Failed() is already true (it never is on a T nothing was signalled on).",
+    "C02": "Contexts cleanup-nested / cleanup-nested-custom: the falsifying cleanup is registered BY a cleanup function.",
+    "C04": "The big-data cases end with collections of variable size (their lengths must not depend on the data drawn by earlier cases).",
+    "C06": "Histories with a dozen stale fail files of another version already present, and with TMPDIR on another file system; family save-fails (a file sits where the directory is needed).",
+    "C08": "One machine in five is run by a property that calls Repeat twice (a subset of the actions, then all of them).",
+    "C09": "A third kind of child process: the third test case takes 4 s and falsifies the property with the test deadline 6 s away.",
+    "C14": "In some overlap scenarios the property's own goroutine ends with Fatalf while the workers keep signalling.",
+    "C17": "Hand-edited fail files (comment lines stripped, blank first line) that now pass or overrun; a child process with 128 file descriptors, no GC and 400 empty fail files in front of a usable one.",
+}
+for _k, _v in _MORE6.items():
+    _MORE5[_k] = _MORE5.get(_k, "") + " " + _v
 for _k, _v in _MORE5.items():
     _MORE[_k] = _MORE.get(_k, "") + " " + _v
 for _k, _v in _MORE.items():
